@@ -120,7 +120,9 @@ LastMatches(op, L) == /\ G(ResGuard(op, L), L.res = E.res)
                       /\ G("oe.actor." \o op, E.a = "*" \/ L.a = E.a)
 T_OpEnd == /\ IsEvent("op_end")
            /\ LET c == E.task IN
-              /\ G("oe.cur", cur = c /\ ~yl)
+              \* (a registry operation that returns without having passed the lock's scheduling point - e.g. one rewritten to
+              \* try_read - is still judged by its result: the yield is the harness shim's, not part of the API contract)
+              /\ G("oe.cur", cur = c /\ (~yl \/ cli[c].stage = "reglock"))
               /\ G("oe.n", cli[c].n = E.n)
               /\ IF E.res = "cancelled"
                  THEN \* polled once, still pending, dropped: the spec must agree that it could not complete yet
@@ -130,7 +132,7 @@ T_OpEnd == /\ IsEvent("op_end")
                  THEN LastMatches(cli[c].op, cli[c].last) /\ UNCHANGED vars
                  ELSE /\ ~(cli[c].stage = "flush" /\ cli[c].op = "call")     \* routing: that step is silent
                       /\ G("oe.ready." \o cli[c].op, ClientContEnabled(c))
-                      /\ RunCont(c)
+                      /\ ClientCont(c) /\ cur' = cur /\ yl' = FALSE
                       /\ G(IF cli[c].stage = "reglock" /\ cli[c].arg.ty \in DOMAIN reg.ent /\ act[reg.ent[cli[c].arg.ty]].pc = "failed" THEN "oe.done.failed" ELSE "oe.done",
                            cli'[c].stage = "idle")
                       /\ LastMatches(cli[c].op, cli'[c].last)
